@@ -16,7 +16,9 @@ func init() {
 
 func ruleC12UnwrapTable(c *Ctx) {
 	c.Doc("c12.unwrap-table", "the unwrapper (ValueOf) resolves every engine-internal value wrapper the expression evaluators can hand out: ColumnName -> the value read from the current row by that name (error propagated), NeutalString -> the plain string, *float64 -> the number (NULL for a nil pointer); every other value is returned as it is")
-	c.NotDecidedClause("C12: JSON-representability of values returned by user functions; equality of two executions on concrete inputs")
+	if c.Property == "C12" {
+		c.NotDecidedClause("C12: JSON-representability of values returned by user functions; equality of two executions on concrete inputs")
+	}
 	f := c.P.Func(modPath, "ValueOf")
 	if f == nil {
 		c.Unknown("c12.unwrap-table", "ValueOf", "-", "anchor lost")
@@ -31,6 +33,7 @@ func ruleC12UnwrapTable(c *Ctx) {
 	val := f.Params[len(f.Params)-1].Name()
 	row := paramNameOfType(f, "Map")
 	arms := map[string]string{}
+	sawNilPtrArm := false
 	for _, p := range paths {
 		if p.Exit != "return" || len(p.Ret) != 2 {
 			continue
@@ -83,6 +86,7 @@ func ruleC12UnwrapTable(c *Ctx) {
 				}
 			}
 			if nilPtr {
+				sawNilPtrArm = true
 				if !r.Nil {
 					verdict = "a nil number pointer does not yield NULL"
 				}
@@ -125,6 +129,7 @@ func ruleC12UnwrapTable(c *Ctx) {
 		chk(r.Results[0], 0)
 	})
 	c.Check(leak == "", "c12.unwrap-table", "ValueOf/static-types", c.P.Pos(f.Pos()), "no return boxes a wrapper-typed value", leak)
+	c.Check(sawNilPtrArm, "c12.unwrap-table", "ValueOf/*float64-nil", c.P.Pos(f.Pos()), "the nil number pointer (arithmetic over a NULL operand) is tested before the dereference and yields NULL", "the number-pointer arm dereferences without a nil test: the nil pointer arithmetic hands out for a NULL operand panics instead of yielding NULL")
 	for _, k := range []string{"ColumnName", "NeutalString", "*float64", "default"} {
 		v, has := arms[k]
 		c.Check(has && v == "ok", "c12.unwrap-table", "ValueOf/"+k, c.P.Pos(f.Pos()), "arm resolves the wrapper", func() string {
